@@ -67,6 +67,27 @@ def unordered_uses(fnode):
     return sorted(set(uses)), reorders
 
 
+def no_uninit(rep, model):
+    """np.empty / np.empty_like hand out whatever the allocator left in memory: any element that is not written before it is read makes the result depend on what ran before"""
+    import ast
+    rep.rule('NO-UNINIT', 'no function allocates an uninitialised buffer (np.empty, np.empty_like, np.ndarray(shape)): a partially written one (np.divide(..., out=buf, where=...)) '
+                          'returns allocator garbage that differs from call to call')
+    n = 0
+    def uses(node):
+        return [(x.lineno, ast.unparse(x.func)) for x in ast.walk(node) if isinstance(x, ast.Call) and isinstance(x.func, ast.Attribute) and
+                (x.func.attr in ('empty', 'empty_like') or (x.func.attr == 'ndarray' and isinstance(x.func.value, ast.Name) and x.func.value.id in ('np', 'numpy')))]
+    for q, fn in sorted(model.funcs.items()):
+        n += 1
+        for ln, nm in uses(fn.node):
+            rep.violation('NO-UNINIT', f'{fn.name}:{nm}', f'{fn.path}:{ln} {fn.name}', expected='np.zeros / np.full (or a buffer that is provably written everywhere)',
+                          found=f'{nm}(...): uninitialised memory can reach the result', key=f'NO-UNINIT@{fn.mod}:{fn.name}:{nm}')
+    ex = ast.parse('def f(a, b):\n    r = np.empty(a.shape)\n    np.divide(a, b, out=r, where=b != 0)\n    return r, np.zeros(3)\n').body[0]
+    if len(uses(ex)) == 1:
+        rep.ok('NO-UNINIT', 'package', '-', found=f'{n} functions scanned; embedded example fires on np.empty only', nontrivial=True)
+    else:
+        rep.unresolved('SELF-TEST', 'no-uninit', 'sa/rules/c15.py:no_uninit', 'the query no longer behaves as expected on the embedded example')
+
+
 def no_schedule(rep, model):
     import ast
     n = 0
@@ -156,6 +177,7 @@ def check(rep, model, tier):
                 continue
             rep.violation('NO-AMBIENT', f'{fn.name}:{dotted}', f'{fn.path}:{ln} {fn.name}', expected='no RNG / clock / environment access', found=dotted)
     n_sched = no_schedule(rep, model)
+    no_uninit(rep, model)
     # module-level mutable state that functions read and some function writes is covered by NO-GLOBAL; count what was looked at
     rep.ok('NO-GLOBAL', 'package', '-', found=f'{n_fn} functions scanned', nontrivial=True)
     rep.ok('EFF-ROVIEW', 'package', '-', found=f'{n_fn} functions scanned, read-only views armed={ro}', nontrivial=True)
